@@ -2343,7 +2343,7 @@ PSymbolEntry EnterIntSymbolWithFlags(
     pNeu->RefList               = NULL;
     pNeu->SymWert.Relocs        = NULL;
 
-    if ((MomLocHandle == -1) || (DestHandle != -2)) {
+    if ((MomLocHandle == -1) || (DestHandle != -2) || MayChange) {
         EnterSymbol(pNeu, MayChange, DestHandle);
         if (MakeDebug) {
             PrintSymTree(pNeu->Tree.Name);
@@ -2383,7 +2383,7 @@ void EnterExtSymbol(
     pNeu->SymWert.Relocs->Ref   = as_strdup(pNeu->Tree.Name);
     pNeu->SymWert.Relocs->Add   = True;
 
-    if ((MomLocHandle == -1) || (DestHandle != -2)) {
+    if ((MomLocHandle == -1) || (DestHandle != -2) || MayChange) {
         EnterSymbol(pNeu, MayChange, DestHandle);
         if (MakeDebug) {
             PrintSymTree(pNeu->Tree.Name);
@@ -2423,7 +2423,7 @@ PSymbolEntry EnterRelSymbol(
     pNeu->SymWert.Relocs->Ref   = as_strdup(RelName_SegStart);
     pNeu->SymWert.Relocs->Add   = True;
 
-    if ((MomLocHandle == -1) || (DestHandle != -2)) {
+    if ((MomLocHandle == -1) || (DestHandle != -2) || MayChange) {
         EnterSymbol(pNeu, MayChange, DestHandle);
         if (MakeDebug) {
             PrintSymTree(pNeu->Tree.Name);
@@ -2458,7 +2458,7 @@ void EnterFloatSymbol(tStrComp const* pName, Double Wert, Boolean MayChange) {
     pNeu->RefList               = NULL;
     pNeu->SymWert.Relocs        = NULL;
 
-    if ((MomLocHandle == -1) || (DestHandle != -2)) {
+    if ((MomLocHandle == -1) || (DestHandle != -2) || MayChange) {
         EnterSymbol(pNeu, MayChange, DestHandle);
         if (MakeDebug) {
             PrintSymTree(pNeu->Tree.Name);
@@ -2498,7 +2498,7 @@ void EnterNonZStringSymbolWithFlags(
     pNeu->RefList          = NULL;
     pNeu->SymWert.Relocs   = NULL;
 
-    if ((MomLocHandle == -1) || (DestHandle != -2)) {
+    if ((MomLocHandle == -1) || (DestHandle != -2) || MayChange) {
         EnterSymbol(pNeu, MayChange, DestHandle);
         if (MakeDebug) {
             PrintSymTree(pNeu->Tree.Name);
@@ -2551,7 +2551,7 @@ void EnterRegSymbol(
     pNeu->RefList               = NULL;
     pNeu->SymWert.Relocs        = NULL;
 
-    if ((MomLocHandle == -1) || (DestHandle != -2)) {
+    if ((MomLocHandle == -1) || (DestHandle != -2) || MayChange) {
         EnterSymbol(pNeu, MayChange, DestHandle);
         if (MakeDebug) {
             PrintSymTree(pNeu->Tree.Name);
